@@ -764,3 +764,89 @@ TYPED_SOURCES = [
     "local a: Array<Array<number>> = {}\n",
     "type T = ( number ) | ( string & boolean )\n",
 ]
+
+
+# ---- separators: every comma / semicolon / `|` / `&` separated list that src/ast_converter.rs stores tokens
+# for, with two or more items and independent random trivia on both sides of every separator
+
+SEP_TRIVIA = ["", "", " ", "  ", "\t", " --[[c]] ", "--[[c]]", " -- c\n", "\n", "\n  ", " --[=[ c\n]=] "]
+
+
+def _sep(rng, ch):
+    a, b = rng.choice(SEP_TRIVIA), rng.choice(SEP_TRIVIA)
+    return a + ch + b
+
+
+SEPARATOR_TEMPLATES = [
+    # label (the token field of ast_converter.rs), template: {,} {;} {|} {&} are separators
+    ("local: variable_commas / value_commas", "local a{,}b{,}c = 1{,}2{,}3\n"),
+    ("const: variable_commas / value_commas", "const a{,}b = 1{,}2\n"),
+    ("const: three names and values", "const a{,}b{,}c = f(){,}2{,}{}\n"),
+    ("assign: variable_commas / value_commas", "a{,}b.c{,}d[1] = 1{,}2{,}3\n"),
+    ("return: commas", "return 1{,}2{,}3\n"),
+    ("generic for: identifier_commas / value_commas", "for k{,}v{,}w in pairs(t){,}nil{,}1 do end\n"),
+    ("numeric for: end_comma / step_comma", "for i = 1{,}10{,}2 do end\n"),
+    ("call: tuple arguments commas", "f(1{,}2{,}3)\nobj:m('a'{,}{}{,}nil)\n"),
+    ("function parameters: local function", "local function f(a{,}b{,}...) end\n"),
+    ("function parameters: statement / method / expression",
+     "function g(a{,}b) end\nfunction t:m(x{,}y{,}z) end\nlocal h = function(a{,}b) end\nconst function k(a{,}b) end\n"),
+    ("table: separators", "local t = {1{,}2{;}x = 3{,}[4] = 5{;}}\nlocal u = {f(){;}g(){,}}\n"),
+    ("type declaration: generic parameters", "type T<A{,}B{,}C...> = { x: A{,}y: B{;}z: number }\nexport type P<K{,}V = string> = { [K]: V }\n"),
+    ("function generics / typed parameters / type pack", "local function f<A{,}B>(x: A{,}y: B): (A{,}B) return x{,}y end\n"),
+    ("function type: arguments", "type F = (number{,}string) -> (boolean{,}nil)\ntype G = (a: number{,}b: string{,}c: any) -> ()\n"),
+    ("union / intersection separators", "type U = A{|}B{|}C\ntype I = A{&}B{&}C\ntype L = {|}A{|}B\n"),
+    ("type parameters / type instantiation", "local v: Map<string{,}number> = f<<number{,}string>>(1)\n"),
+    ("table type fields", "type R = { a: number{,}b: string{;}[number]: boolean{,}}\n"),
+]
+
+
+def separator_sources(rng, n):
+    out = []
+    for i in range(n):
+        label, tpl = SEPARATOR_TEMPLATES[i % len(SEPARATOR_TEMPLATES)]
+        src = ""
+        k = 0
+        while k < len(tpl):
+            if tpl[k] == "{" and tpl[k + 2:k + 3] == "}" and tpl[k + 1] in ",;|&":
+                src += _sep(rng, tpl[k + 1])
+                k += 3
+            else:
+                src += tpl[k]
+                k += 1
+        out.append((label, src))
+    return out
+
+
+# ---- statements that start with a parenthesis: darklua writes a `;` in front of one only when the previous
+# statement ends in a prefix expression (and the source had none)
+
+PAREN_STATEMENTS = ["(f or g)(x)", "(obj :: any).field = v", "(getmetatable(v)).__index = nil", "(a).b += 1", "(f)()",
+                    "(t)[1] = 2", "(f or g):m(x)"]
+ENDS_WITHOUT_PREFIX = ["local x = 1", "local s = 'a'", "local t = {}", "local f = function() end", "local n = nil",
+                       "local y: number", "x = true", "do end", "if a then end", "local z = x :: number", "local s = [[x]]",
+                       "local v = ...", "local w = `a`", "while a do end", "x += 0x10", "local r = not q", "type T = number"]
+ENDS_WITH_PREFIX = ["local a = f()", "f()", "local a = b", "a.b = c.d", "local a = t[1]", "obj:m()", "x += y", "local a = (b)"]
+BETWEEN = ["\n", "\n\n", " ", " -- c\n", "\n--[[ c ]]\n", "\n  ", " --[[c]] "]
+
+
+def paren_statement_sources(rng, n):
+    out = []
+    for i in range(n):
+        p = PAREN_STATEMENTS[i % len(PAREN_STATEMENTS)]
+        if i % 3 == 2:
+            prev = ENDS_WITH_PREFIX[(i // 3) % len(ENDS_WITH_PREFIX)]
+            src = prev + rng.choice(["", " ", "\n", " --[[c]] "]) + ";" + rng.choice(BETWEEN + [""]) + p + "\n"
+            out.append(("paren statement after a prefix, explicit `;`", src))
+        else:
+            prev = ENDS_WITHOUT_PREFIX[(i + i // 7) % len(ENDS_WITHOUT_PREFIX)]
+            src = prev + rng.choice(BETWEEN) + p + rng.choice(["\n", "", "\nreturn x\n"])
+            out.append(("paren statement after a statement that does not end in a prefix, no `;`", src))
+    return out
+
+
+BOM = "﻿"
+BOM_SOURCES = [
+    BOM + "return 1\n", BOM + "a=1", BOM + "local a = 1\nlocal b = 2\n\nreturn a, b\n", BOM + "-- c\nreturn 1", BOM,
+    BOM + "\n" + BOM + "return 1\n", "return '" + BOM + "'\n", "local s = [[" + BOM + "]] -- " + BOM + "\nreturn s\n",
+    "#!/usr/bin/lua\n" + BOM + "return 1\n", "#!/usr/bin/lua\nreturn 1\n", BOM + "#!/usr/bin/lua\nreturn 1\n",
+]
